@@ -4,8 +4,7 @@
 From Verif Require Import Base.Str Gen.Lits.
 Open Scope N_scope.
 
-(* regex/operators/assembler.go func Operator_includeVerticalTabInSpaceClass: \s\x0b  | \s\x0b *)
-Lemma pinned : Gen.Lits.lits_regex_operators_assembler_Operator_includeVerticalTabInSpaceClass =
-  [[92; 115; 92; 120; 48; 98; 32];
-    [92; 115; 92; 120; 48; 98]].
+(* regex/operators/assembler.go perlSpaceClass = \t\n\f\r  *)
+Lemma pinned : Gen.Lits.const_regex_operators_assembler_perlSpaceClass =
+  [92; 116; 92; 110; 92; 102; 92; 114; 32].
 Proof. reflexivity. Qed.
